@@ -147,7 +147,7 @@ func packageName(pkgDir string) (string, error) {
 // doReplays replays every violation and every vacuity witness natively.  Returns true when
 // some model did not reproduce (encoding mismatch).
 func doReplays(prop string, results []*harnessResult, tier string) bool {
-	outDir := filepath.Join(verifDir, "out", prop)
+	outDir := outDirFor(prop)
 	os.MkdirAll(filepath.Join(outDir, "replays"), 0o755)
 	type pending struct {
 		r   *harnessResult
